@@ -72,47 +72,90 @@ _Static_assert(A5_SIZE_OK(A5_S0) && A5_SIZE_OK(A5_S1) && A5_SIZE_OK(A5_S2) && A5
 #define SC(k) ((k) <= 0 ? (long) A5_S0 : (k) == 1 ? (long) A5_S1 : (k) == 2 ? (long) A5_S2 : (long) A5_S3)
 
 /* ------------------------------------------------------------------ the ghost scene */
+#define A5_REGMAX (A5_O4 - A5_O0)
 uint8_t a5_mem[A5_MEM];        /* the mapped stream == the stream file (arbitrary content: statics are havocked) */
-#ifndef A5_LEAF_WRITE
 long g_K;                      /* events laid out before `next` */
-#endif
 long g_P[A5_KMAX + 1];         /* offset of OUTPUT event j after sorting (events of the region have moved) */
 long g_perm[A5_KMAX];          /* output event j is input event g_perm[j] (chosen by qsort) */
 long g_b;                      /* bad0 is event g_b */
-#ifndef A5_LEAF_WRITE
-long g_f;
-#endif
-                               /* first is event g_f: the destination the specification names (bound in requires, assigned by nobody) */
+long g_f;                      /* first is event g_f: the destination the specification names (bound in requires, assigned by nobody) */
 long g_s, g_bb;                /* observers: an arbitrary INPUT event and an arbitrary byte position inside it */
 unsigned char g_oldbyte;       /* that byte before the call */
 long g_pos; unsigned char g_posbyte;   /* observer: an arbitrary byte of the mapping, and its value before the call */
+long g_outoff;                 /* == A5_OUTOFF (named for the loop invariant of write_stream, which cannot use macros) */
 
 long nondet_long(void);
 uint64_t nondet_u64(void);
-unsigned g_malloc_fail;
+
+/* ---- malloc / calloc / free: TRUSTED model.  Any call may fail (NULL).  Otherwise the block is the LAST n bytes of
+ * an object dedicated to that call site, with arbitrary content (calloc: zeroed) -- so an access past the block
+ * leaves the object.  (A malloc'ed object of symbolic size costs CBMC far more than a symbolic position inside a
+ * fixed object, cf. c19_sort.c.)  Call sites: execute_sort_plan's work buffer -> a5_out; sort_buf's copy of the
+ * region -> a5_cpy; sort_buf's pointer table -> a5_tab.  free: only of the pointer handed out, once. */
+uint8_t a5_out[A5_REGMAX];
+uint8_t a5_cpy[A5_REGMAX];
+struct ovni_ev;
+struct ovni_ev *a5_tab[A5_KMAX];
+#define A5_OUTOFF (A5_REGMAX - (OC(g_K) - OC(g_f)))
+#define A5_OUTPTR (a5_out + A5_OUTOFF)
+#define A5_TABPTR (a5_tab + (A5_KMAX - (g_K - g_f)))
+unsigned g_malloc_fail, g_mcalls, g_ycalls, g_ccalls;     /* blocks handed out: work buffer, copy, table */
+void *g_mptr, *g_yptr, *g_cptr; int g_mfreed, g_yfreed, g_cfreed; unsigned g_badfree;
 static void *a5_malloc(size_t n)
 {
-	void *p = nondet_bool() ? NULL : malloc(n);
-	if (p == NULL) { g_malloc_fail++; g_die_ok = 1; }
-	return p;
+	if (nondet_bool()) { g_malloc_fail++; g_die_ok = 1; return NULL; }
+#ifdef A5_LEAF_SORTBUF
+	VASSERT(n >= 1 && n <= A5_REGMAX && g_ycalls == 0, "malloc model: one block of at most the largest region per call site");
+	g_ycalls++;
+	g_yptr = a5_cpy + (A5_REGMAX - n);
+	g_yfreed = 0;
+	return g_yptr;
+#else
+	VASSERT(n >= 1 && n <= A5_REGMAX && g_mcalls == 0, "malloc model: one block of at most the largest region per call site");
+	g_mcalls++;
+	g_mptr = a5_out + (A5_REGMAX - n);
+	g_mfreed = 0;
+	return g_mptr;
+#endif
 }
 static void *a5_calloc(size_t n, size_t m)
 {
-	void *p = nondet_bool() ? NULL : calloc(n, m);
-	if (p == NULL) { g_malloc_fail++; g_die_ok = 1; }
-	return p;
+	if (nondet_bool()) { g_malloc_fail++; g_die_ok = 1; return NULL; }
+	VASSERT(m == sizeof(struct ovni_ev *) && n >= 1 && n <= A5_KMAX && g_ccalls == 0, "calloc model: one table of at most A5_KMAX pointers");
+	g_ccalls++;
+	a5_tab[0] = NULL; a5_tab[1] = NULL; a5_tab[2] = NULL; a5_tab[3] = NULL;
+	g_cptr = a5_tab + (A5_KMAX - n);
+	g_cfreed = 0;
+	return g_cptr;
 }
+static void a5_free(void *p)
+{
+	if (p != NULL && p == g_mptr && !g_mfreed) g_mfreed = 1;
+	else if (p != NULL && p == g_yptr && !g_yfreed) g_yfreed = 1;
+	else if (p != NULL && p == g_cptr && !g_cfreed) g_cfreed = 1;
+	else if (p != NULL) g_badfree++;
+}
+#ifdef A5_MEMCPY_MODEL
+/* memcpy (libc): exact byte-wise model for n <= A5_REGMAX, loop-free */
+static void *a5_memcpy(void *d, const void *s, size_t n)
+{
+#ifndef A5_MEMCPY_MAX
+#define A5_MEMCPY_MAX A5_REGMAX
+#endif
+	VASSERT(n <= A5_MEMCPY_MAX, "memcpy model: at most A5_MEMCPY_MAX bytes");
+#define A5_MC1(c) if ((size_t) (c) < n && (c) < A5_MEMCPY_MAX) ((uint8_t *) d)[(c)] = ((const uint8_t *) s)[(c)];
+#define A5_MC8(c) A5_MC1(c) A5_MC1((c) + 1) A5_MC1((c) + 2) A5_MC1((c) + 3) A5_MC1((c) + 4) A5_MC1((c) + 5) A5_MC1((c) + 6) A5_MC1((c) + 7)
+#define A5_MC32(c) A5_MC8(c) A5_MC8((c) + 8) A5_MC8((c) + 16) A5_MC8((c) + 24)
+	_Static_assert(A5_REGMAX <= 128, "unrolled copy covers the largest region");
+	A5_MC32(0) A5_MC32(32) A5_MC32(64) A5_MC32(96)
+	return d;
+}
+#endif
 
 /* ---- pwrite: most general POSIX behaviour for count > 0 (fails, or writes 1..count bytes at `offset`), storing
  * into the mapping (see ASSUMED above); calls logged.  TRUSTED as in the write_stream group of c16_sort.c: a
  * successful pwrite of count > 0 bytes writes at least one byte. */
 unsigned long g_pw_calls; int g_pw_fd; long g_pw_first, g_pw_next; unsigned g_pw_gap, g_pw_fail;
-#define A5_REGMAX (A5_O4 - A5_O0)
-#ifdef A5_LEAF_WRITE
-uint8_t a5_src[A5_REGMAX];     /* write_stream leaf: the source is the LAST `size` bytes of this object (reading past them leaves it) */
-long g_srcoff;
-long g_f, g_K;
-#endif
 ssize_t
 pwrite(int fd, const void *buf, size_t count, off_t offset)
 {
@@ -129,8 +172,8 @@ pwrite(int fd, const void *buf, size_t count, off_t offset)
 	 * variable of a loop under contract: after the havoc CBMC has no value set for it, so the bytes are fetched from
 	 * the source OBJECT of that leaf at the position `buf` is ASSERTED to point to. */
 #ifdef A5_LEAF_WRITE
-	VASSERT((const uint8_t *) buf == a5_src + g_srcoff + (offset - OC(g_f)), "pwrite source and file offset advance in lockstep");
-#define A5_PWSRC(c) a5_src[g_srcoff + ((c) - OC(g_f))]
+	VASSERT((const uint8_t *) buf == a5_out + g_outoff + (offset - OC(g_f)), "pwrite source and file offset advance in lockstep");
+#define A5_PWSRC(c) a5_out[g_outoff + ((c) - OC(g_f))]
 #else
 #define A5_PWSRC(c) ((const uint8_t *) buf)[(c) - offset]
 #endif
@@ -186,11 +229,20 @@ struct ovni_ev *stream_ev(struct stream *stream) { (void) stream; return &g_cur_
 
 #define malloc(n) a5_malloc(n)
 #define calloc(n, m) a5_calloc((n), (m))
+#define free(p) a5_free(p)
+#ifdef A5_MEMCPY_MODEL
+#undef memcpy
+#define memcpy(d, s, n) a5_memcpy((d), (s), (n))
+#endif
 #define main ovnisort_main
 #include "ovnisort.c"          /* the real /repo/src/emu/ovnisort.c */
 #undef main
 #undef malloc
 #undef calloc
+#undef free
+#ifdef A5_MEMCPY_MODEL
+#undef memcpy
+#endif
 #ifdef A5_REAL_EVSIZE
 #include "ovni.c"              /* the real ovni_ev_size / ovni_payload_size on the bytes of the mapping */
 #else
@@ -210,8 +262,11 @@ uint64_t ovni_ev_get_clock(const struct ovni_ev *ev) { return ev->header.clock; 
 /* byte / clock of the mapping at a symbolic offset; of a buffer (holding a copy of the region) at a symbolic offset */
 static uint8_t sc_mb(long off) { for (long c = A5_O0; c < A5_O4; c++) if (off == c) return a5_mem[c]; return 0; }
 static uint64_t sc_mc(long off) { for (long c = A5_O0; c < A5_O4; c++) if (off == c) return CLKAT(a5_mem, c); return 0; }
-static uint8_t sc_bb(const uint8_t *m, long rel) { for (long c = 0; c < A5_REGMAX; c++) if (rel == c) return m[c]; return 0; }
-static uint64_t sc_bc(const uint8_t *m, long rel) { for (long c = 0; c + 12 <= A5_REGMAX; c++) if (rel == c) return CLKAT(m, c); return 0; }
+/* byte / clock of the work buffer a5_out (of the copy a5_cpy) at a symbolic position of the OBJECT */
+static uint8_t sc_ob(long i) { for (long c = 0; c < A5_REGMAX; c++) if (i == c) return a5_out[c]; return 0; }
+static uint64_t sc_oc(long i) { for (long c = 0; c + 12 <= A5_REGMAX; c++) if (i == c) return CLKAT(a5_out, c); return 0; }
+static uint8_t sc_yb(long i) { for (long c = 0; c < A5_REGMAX; c++) if (i == c) return a5_cpy[c]; return 0; }
+static uint64_t sc_yc(long i) { for (long c = 0; c + 12 <= A5_REGMAX; c++) if (i == c) return CLKAT(a5_cpy, c); return 0; }
 /* the flags bytes of the INPUT events from..g_K-1 found in the mapping announce the sizes of the scene; non-jumbo; clocks < 2^63 */
 static _Bool sc_wf_in(long from)
 {
@@ -269,7 +324,7 @@ static void a5_link(void) { a5_ring.size = A5_RN; a5_ring.ev = a5_slots; a5_sp.r
 static _Bool sc_prange(void)
 {
 	_Bool ok = 1;
-	for (long j = 0; j <= A5_KMAX; j++) ok = ok & (0 <= g_P[j]) & (g_P[j] <= A5_MEM);
+	for (long j = 0; j <= A5_KMAX; j++) if (j <= g_K) ok = ok & (0 <= g_P[j]) & (g_P[j] <= A5_MEM);
 	return ok;
 }
 static _Bool sc_perm(void)
@@ -301,30 +356,30 @@ static _Bool sc_pshape(void)
 	}
 	return ok;
 }
-/* buffer `m` (byte 0 == the start of the region) holds at the OUTPUT layout the events the mapping holds at the INPUT
+/* the work buffer (block A5_OUTPTR of a5_out, byte 0 == the start of the region) holds at the OUTPUT layout the events the mapping holds at the INPUT
  * layout, permuted: flags byte, clock and the observed byte of every event of the region */
-static _Bool sc_same_buf(const uint8_t *m)
+static _Bool sc_same_buf(void)
 {
 	_Bool ok = 1;
 	for (long j = 0; j < A5_K; j++)
 		if (INREG(j)) {
 			long rel = g_P[j] - g_P[g_f < 0 || g_f >= A5_K ? 0 : g_f];
 			for (long c = 0; c < A5_K; c++) if (PERMJ(j) == c) {
-				ok = ok & (sc_bb(m, rel) == a5_mem[OC(c)]) & (sc_bc(m, rel) == CLKAT(a5_mem, OC(c)));
-				if (g_bb < SC(c)) ok = ok & (sc_bb(m, rel + g_bb) == sc_mb(OC(c) + g_bb));
+				ok = ok & (sc_ob(A5_OUTOFF + rel) == a5_mem[OC(c)]) & (sc_oc(A5_OUTOFF + rel) == CLKAT(a5_mem, OC(c)));
+				if (g_bb < SC(c)) ok = ok & (sc_ob(A5_OUTOFF + rel + g_bb) == sc_mb(OC(c) + g_bb));
 			}
 		}
 	return ok;
 }
 /* the flags bytes found in buffer `m` / in the mapping at the OUTPUT layout announce the output sizes; non-jumbo; clocks < 2^63 */
-static _Bool sc_wf_buf(const uint8_t *m)
+static _Bool sc_wf_buf(void)
 {
 	_Bool ok = 1;
 	for (long j = 0; j < A5_K; j++)
 		if (INREG(j)) {
 			long rel = g_P[j] - g_P[g_f < 0 || g_f >= A5_K ? 0 : g_f];
-			uint8_t fl = sc_bb(m, rel);
-			ok = ok & ((fl & OVNI_EV_JUMBO) == 0) & (SZ_P(j) == SIZE_OF_FLAGS(fl)) & (sc_bc(m, rel) < (1UL << 63));
+			uint8_t fl = sc_ob(A5_OUTOFF + rel);
+			ok = ok & ((fl & OVNI_EV_JUMBO) == 0) & (SZ_P(j) == SIZE_OF_FLAGS(fl)) & (sc_oc(A5_OUTOFF + rel) < (1UL << 63));
 		}
 	return ok;
 }
@@ -339,25 +394,25 @@ static _Bool sc_wf_out(void)
 	return ok;
 }
 /* the mapping holds at the OUTPUT layout exactly what buffer `n` holds there: flags, clock, observed byte */
-static _Bool sc_copy(const uint8_t *n)
+static _Bool sc_copy(void)
 {
 	_Bool ok = 1;
 	for (long j = 0; j < A5_K; j++)
 		if (INREG(j)) {
 			long rel = g_P[j] - g_P[g_f < 0 || g_f >= A5_K ? 0 : g_f];
-			ok = ok & (sc_mb(g_P[j]) == sc_bb(n, rel)) & (sc_mc(g_P[j]) == sc_bc(n, rel));
-			if (g_bb < SZ_P(j)) ok = ok & (sc_mb(g_P[j] + g_bb) == sc_bb(n, rel + g_bb));
+			ok = ok & (sc_mb(g_P[j]) == sc_ob(A5_OUTOFF + rel)) & (sc_mc(g_P[j]) == sc_oc(A5_OUTOFF + rel));
+			if (g_bb < SZ_P(j)) ok = ok & (sc_mb(g_P[j] + g_bb) == sc_ob(A5_OUTOFF + rel + g_bb));
 		}
 	return ok;
 }
 /* clocks of the region at the output layout are non-decreasing (unsigned): in buffer `m` / in the mapping */
-static _Bool sc_sorted_buf(const uint8_t *m)
+static _Bool sc_sorted_buf(void)
 {
 	_Bool ok = 1;
 	for (long j = 0; j + 1 < A5_K; j++)
 		if (INREG(j) && j + 1 < g_K) {
 			long f0 = g_P[g_f < 0 || g_f >= A5_K ? 0 : g_f];
-			ok = ok & (sc_bc(m, g_P[j] - f0) <= sc_bc(m, g_P[j + 1] - f0));
+			ok = ok & (sc_oc(A5_OUTOFF + g_P[j] - f0) <= sc_oc(A5_OUTOFF + g_P[j + 1] - f0));
 		}
 	return ok;
 }
@@ -369,13 +424,13 @@ static _Bool sc_sorted_out(void)
 	return ok;
 }
 #ifdef A5_STABLE
-static _Bool sc_stable_buf(const uint8_t *m)
+static _Bool sc_stable_buf(void)
 {
 	_Bool ok = 1;
 	for (long j = 0; j + 1 < A5_K; j++)
 		if (INREG(j) && j + 1 < g_K) {
 			long f0 = g_P[g_f < 0 || g_f >= A5_K ? 0 : g_f];
-			if (sc_bc(m, g_P[j] - f0) == sc_bc(m, g_P[j + 1] - f0)) ok = ok & (g_perm[j] < g_perm[j + 1]);
+			if (sc_oc(A5_OUTOFF + g_P[j] - f0) == sc_oc(A5_OUTOFF + g_P[j + 1] - f0)) ok = ok & (g_perm[j] < g_perm[j + 1]);
 		}
 	return ok;
 }
@@ -418,21 +473,25 @@ void cr_sort_buf(uint8_t *src, uint8_t *buf, int64_t bufsize)
 __CPROVER_requires(SHAPE && 0 <= g_f && g_f < g_K && 0 <= g_bb && g_bb < 28)
 __CPROVER_requires(__CPROVER_pointer_equals(src, (uint8_t *) EVPTR_O(g_f)) && bufsize == OC(g_K) - OC(g_f))
 __CPROVER_requires(sc_wf_in(g_f))
-__CPROVER_requires(__CPROVER_w_ok(buf, (size_t) bufsize) && !__CPROVER_same_object(buf, a5_mem))
-__CPROVER_assigns(__CPROVER_object_upto(buf, (size_t) bufsize), __CPROVER_object_whole(g_P), __CPROVER_object_whole(g_perm), g_qsort_calls, g_malloc_fail, g_die_ok)
+/* the output buffer is the block execute_sort_plan obtained from malloc (model above) */
+__CPROVER_requires(__CPROVER_pointer_equals(buf, A5_OUTPTR) && g_mptr == (void *) A5_OUTPTR && g_ycalls == 0 && g_ccalls == 0 && g_badfree == 0)
+__CPROVER_assigns(__CPROVER_object_whole(a5_out), __CPROVER_object_whole(g_P), __CPROVER_object_whole(g_perm), g_qsort_calls, g_malloc_fail, g_die_ok)
+__CPROVER_assigns(__CPROVER_object_whole(a5_cpy), __CPROVER_object_whole(a5_tab), g_ycalls, g_ccalls, g_yptr, g_cptr, g_yfreed, g_cfreed, g_badfree, g_died)
 /* buf receives the events of [src, src + bufsize): a permutation of whole events (sizes preserved) ... */
-__CPROVER_ensures(sc_perm() && sc_same_buf(buf) && sc_wf_buf(buf))
+__CPROVER_ensures(sc_perm() && sc_same_buf() && sc_wf_buf())
 /* ... in non-decreasing clock order */
-__CPROVER_ensures(sc_sorted_buf(buf))
+__CPROVER_ensures(sc_sorted_buf())
 #ifdef A5_STABLE
-__CPROVER_ensures(sc_stable_buf(buf))
+__CPROVER_ensures(sc_stable_buf())
 #endif
 __CPROVER_ensures(g_qsort_calls == OLD(g_qsort_calls) + 1 && g_die_ok == OLD(g_die_ok))
+/* its own two blocks are released, nothing else is; the caller's block is still the caller's */
+__CPROVER_ensures(g_badfree == 0 && g_ycalls == 1 && g_yfreed == 1 && g_ccalls == 1 && g_cfreed == 1)
 ;
 void cr_write_stream(int fd, void *base, void *dst, const void *src, size_t size)
 __CPROVER_requires(sc_pshape() && 0 <= g_bb && g_bb < 28)
 __CPROVER_requires(base == (void *) a5_mem && __CPROVER_pointer_equals(dst, (void *) EVPTR_O(g_f)) && size == (size_t) (OC(g_K) - OC(g_f)))
-__CPROVER_requires(__CPROVER_r_ok(src, size) && !__CPROVER_same_object(src, a5_mem))
+__CPROVER_requires(__CPROVER_pointer_equals(src, (const void *) A5_OUTPTR) && g_outoff == A5_OUTOFF)
 __CPROVER_requires(g_pw_calls == 0 && g_pw_gap == 0 && g_pw_fail == 0 && 0 <= g_pos && g_pos < A5_MEM)
 /* frame: the whole mapping is havocked (a constant-size havoc is what CBMC encodes cheaply); that only [dst, dst + size)
  * changes is the clause on the observed byte g_pos below */
@@ -440,7 +499,7 @@ __CPROVER_assigns(__CPROVER_object_whole(a5_mem), g_pw_calls, g_pw_fd, g_pw_firs
 /* one gap-free run of successful pwrites on fd covering exactly the region ... */
 __CPROVER_ensures(g_pw_fail == 0 && g_pw_gap == 0 && g_pw_calls >= 1 && g_pw_fd == fd && g_pw_first == OC(g_f) && g_pw_next == OC(g_K) && g_die_ok == OLD(g_die_ok))
 /* ... after which the file (== the mapping) holds the bytes of src, and no byte outside the region has changed */
-__CPROVER_ensures(sc_copy((const uint8_t *) src))
+__CPROVER_ensures(sc_copy())
 __CPROVER_ensures((g_pos >= OC(g_f) && g_pos < OC(g_K)) || a5_mem[g_pos] == OLD(a5_mem[g_pos]))
 ;
 void cr_rebuild_ring(struct ring *r, long long start, struct ovni_ev *first, struct ovni_ev *last)
@@ -458,6 +517,64 @@ __CPROVER_requires(REPOINTED_ALL(start, g_K - g_f))
 /* "Invariant: the ring buffer is always sorted here": asserted where the call is replaced, so ring_check cannot die */
 __CPROVER_requires(sc_sorted_out() && g_die_ok == 0)
 __CPROVER_assigns()
+;
+
+/* ================================================================= inside sort_buf: contracts of its three walkers (replace the calls in a5_leaf_sort_buf; each ENFORCED in a5_leaf_*) */
+/* position in a5_cpy of the copy of input event k (the copy is the LAST bufsize bytes of the object, so it ends where `next` would begin) */
+#define CPYI(k) (A5_REGMAX - (OC(g_K) - OC(k)))
+#define CPYPTR(k) ((k) <= 0 ? a5_cpy + CPYI(0) : (k) == 1 ? a5_cpy + CPYI(1) : (k) == 2 ? a5_cpy + CPYI(2) : (k) == 3 ? a5_cpy + CPYI(3) : a5_cpy + A5_REGMAX)
+/* the flags bytes of the COPIED events from..g_K-1 announce the sizes of the scene; non-jumbo */
+static _Bool sc_wf_cpy(long from)
+{
+	_Bool ok = 1;
+	for (long k = 0; k < A5_K; k++)
+		if (k >= from && k < g_K) {
+			uint8_t fl = sc_yb(CPYI(k));
+			ok = ok & ((fl & OVNI_EV_JUMBO) == 0) & (SC(k) == SIZE_OF_FLAGS(fl)) & (sc_yc(CPYI(k)) < (1UL << 63));
+		}
+	return ok;
+}
+/* cell q of the table object holds entry t = q - (A5_KMAX - n) of the table, if t >= 0 */
+#define TAB_T(q) ((long) (q) - (A5_KMAX - (g_K - g_f)))
+#define TAB_INDEXED(q) (TAB_T(q) < 0 || __CPROVER_pointer_equals(a5_tab[(q)], (struct ovni_ev *) CPYPTR(g_f + TAB_T(q))))
+#define TAB_PERMUTED(q) (TAB_T(q) < 0 || __CPROVER_pointer_equals(a5_tab[(q)], (struct ovni_ev *) CPYPTR(g_perm[g_f + TAB_T(q) < 0 || g_f + TAB_T(q) >= A5_KMAX ? 0 : g_f + TAB_T(q)])))
+/* the work buffer holds at the OUTPUT layout the events the copy holds at the INPUT layout, permuted */
+static _Bool sc_same_out_cpy(void)
+{
+	_Bool ok = 1;
+	for (long j = 0; j < A5_K; j++)
+		if (INREG(j)) {
+			long rel = g_P[j] - g_P[g_f < 0 || g_f >= A5_K ? 0 : g_f];
+			for (long c = 0; c < A5_K; c++) if (PERMJ(j) == c) {
+				ok = ok & (sc_ob(A5_OUTOFF + rel) == sc_yb(CPYI(c))) & (sc_oc(A5_OUTOFF + rel) == sc_yc(CPYI(c)));
+				if (g_bb < SC(c)) ok = ok & (sc_ob(A5_OUTOFF + rel + g_bb) == sc_yb(CPYI(c) + g_bb));
+			}
+		}
+	return ok;
+}
+long cr_count_events(uint8_t *src, uint8_t *end)
+__CPROVER_requires(SHAPE && 0 <= g_f && g_f < g_K)
+__CPROVER_requires(__CPROVER_pointer_equals(src, CPYPTR(g_f)) && __CPROVER_pointer_equals(end, a5_cpy + A5_REGMAX))
+__CPROVER_requires(sc_wf_cpy(g_f))
+__CPROVER_assigns()
+__CPROVER_ensures(RV == g_K - g_f)
+;
+void cr_index_events(struct ovni_ev **table, long n, uint8_t *buf)
+__CPROVER_requires(SHAPE && 0 <= g_f && g_f < g_K && n == g_K - g_f)
+__CPROVER_requires(__CPROVER_pointer_equals(table, A5_TABPTR) && __CPROVER_pointer_equals(buf, CPYPTR(g_f)))
+__CPROVER_requires(sc_wf_cpy(g_f))
+__CPROVER_assigns(__CPROVER_object_whole(a5_tab))
+/* entry t points to the t-th event of the buffer */
+__CPROVER_ensures(TAB_INDEXED(0) && TAB_INDEXED(1) && TAB_INDEXED(2) && TAB_INDEXED(3))
+;
+void cr_write_events(struct ovni_ev **table, long n, uint8_t *buf)
+__CPROVER_requires(SHAPE && 0 <= g_f && g_f < g_K && n == g_K - g_f && 0 <= g_bb && g_bb < 28)
+__CPROVER_requires(__CPROVER_pointer_equals(table, A5_TABPTR) && __CPROVER_pointer_equals(buf, A5_OUTPTR))
+__CPROVER_requires(sc_perm() && sc_wf_cpy(g_f))
+__CPROVER_requires(TAB_PERMUTED(0) && TAB_PERMUTED(1) && TAB_PERMUTED(2) && TAB_PERMUTED(3))
+__CPROVER_assigns(__CPROVER_object_whole(a5_out))
+/* the events the table points to, in table order, back to back */
+__CPROVER_ensures(sc_same_out_cpy())
 ;
 
 /* ================================================================= execute_sort_plan (composition: loop-free) */
@@ -480,10 +597,14 @@ __CPROVER_requires(g_f == g_K - g_cnt + (g_dj >= 0 ? g_dj : 0))
 __CPROVER_requires(0 <= g_s && g_s < g_K && 0 <= g_bb && g_bb < SC(g_s) && g_oldbyte == sc_mb(OC(g_s) + g_bb))
 __CPROVER_requires(0 <= g_pos && g_pos < A5_MEM && g_posbyte == a5_mem[g_pos])
 __CPROVER_requires(g_pw_calls == 0 && g_pw_gap == 0 && g_pw_fail == 0 && g_said == 0 && g_die_ok == 0 && g_malloc_fail == 0 && g_qsort_calls == 0 && DIAG_PRE)
+__CPROVER_requires(g_outoff == A5_OUTOFF && g_mcalls == 0 && g_ycalls == 0 && g_ccalls == 0 && g_badfree == 0)
 __CPROVER_requires(WBIND(execute_sort_plan, w_K == g_K && w_b == g_b && w_cnt == g_cnt && w_head == g_head && w_dj == g_dj))
 __CPROVER_assigns(__CPROVER_object_whole(a5_mem), __CPROVER_object_whole(a5_slots), __CPROVER_object_whole(g_P), __CPROVER_object_whole(g_perm))
 __CPROVER_assigns(g_pw_calls, g_pw_fd, g_pw_first, g_pw_next, g_pw_gap, g_pw_fail, g_said, DIAG_FRAME, g_die_ok, g_malloc_fail, g_qsort_calls, g_died)
+__CPROVER_assigns(__CPROVER_object_whole(a5_out), __CPROVER_object_whole(a5_cpy), __CPROVER_object_whole(a5_tab), g_mcalls, g_ycalls, g_ccalls, g_mptr, g_yptr, g_cptr, g_mfreed, g_yfreed, g_cfreed, g_badfree)
 __CPROVER_ensures(RV == 0 || RV == -1)
+/* every block obtained is released exactly once (nothing is allocated on the failure path) */
+__CPROVER_ensures(g_badfree == 0 && (RV == 0 ? (g_mcalls == 1 && g_mfreed == 1) : g_mcalls == 0))
 /* fails exactly when no window entry is earlier than the region and the window no longer reaches the start of the
  * stream; then it says so and has modified nothing */
 __CPROVER_ensures((RV == -1) == (g_dj < 0 && g_cnt >= A5_RN - 1))
@@ -582,12 +703,58 @@ void h_leaf_write_stream(void)
 	__CPROVER_assume(0 <= g_f && g_f < g_K && g_K <= A5_K);
 	size_t size = (size_t) (OC(g_K) - OC(g_f));
 	int fd = nondet_int();
-	g_srcoff = A5_REGMAX - (long) size;
-	write_stream(fd, a5_mem, EVPTR_O(g_f), a5_src + g_srcoff, size);
+	g_outoff = A5_OUTOFF;
+	write_stream(fd, a5_mem, EVPTR_O(g_f), A5_OUTPTR, size);
 	REACH("write_stream returns");
 	if (g_pw_calls >= 3) REACH("three or more short writes");
 	if (g_K - g_f == A5_K && g_pw_calls == 1) REACH("largest region written at once");
 	if (g_pos >= OC(g_f) && g_pos < OC(g_K)) REACH("observer inside the region");
 	if (g_pos >= OC(g_K)) REACH("observer after the region");
+}
+#endif
+
+#ifdef A5_LEAF_COUNT
+void h_leaf_count_events(void)
+{
+	__CPROVER_assume(SHAPE && 0 <= g_f && g_f < g_K);
+	long n = count_events(CPYPTR(g_f), a5_cpy + A5_REGMAX);
+	if (n == A5_K) REACH("all events of the scene counted");
+	if (n == 1) REACH("one event");
+}
+#endif
+#ifdef A5_LEAF_INDEX
+void h_leaf_index_events(void)
+{
+	__CPROVER_assume(SHAPE && 0 <= g_f && g_f < g_K);
+	index_events(A5_TABPTR, g_K - g_f, CPYPTR(g_f));
+	REACH("index_events returns");
+	if (g_K - g_f == A5_K) REACH("all events of the scene indexed");
+}
+#endif
+#ifdef A5_LEAF_WEVENTS
+void h_leaf_write_events(void)
+{
+	__CPROVER_assume(SHAPE && 0 <= g_f && g_f < g_K);
+	write_events(A5_TABPTR, g_K - g_f, A5_OUTPTR);
+	REACH("write_events returns");
+#if A5_K >= 3
+	if (g_K - g_f == 3 && g_perm[g_f] == g_f + 2 && g_perm[g_f + 1] == g_f) REACH("three events written in another order");
+#endif
+}
+#endif
+#ifdef A5_LEAF_SORTBUF
+void h_leaf_sort_buf(void)
+{
+	__CPROVER_assume(SHAPE && 0 <= g_f && g_f < g_K);
+	g_mptr = A5_OUTPTR; g_mfreed = 0;     /* the caller's block */
+	sort_buf((uint8_t *) EVPTR_O(g_f), A5_OUTPTR, OC(g_K) - OC(g_f));
+	REACH("sort_buf returns");
+#if A5_K >= 3
+	if (g_K - g_f == 3 && g_perm[g_f] == g_f + 2 && g_perm[g_f + 1] == g_f && g_perm[g_f + 2] == g_f + 1) REACH("last event moved to the front");
+	if (g_K - g_f == 3 && g_perm[g_f] == g_f && g_perm[g_f + 1] == g_f + 1) REACH("already sorted");
+#ifndef A5_STABLE
+	if (g_K - g_f >= 2 && CLKAT(a5_mem, OC(g_f < 0 || g_f > 3 ? 0 : g_f)) == CLKAT(a5_mem, OC(g_f < 0 || g_f > 2 ? 1 : g_f + 1)) && g_perm[g_f] == g_f + 1 && g_perm[g_f + 1] == g_f) REACH("an unstable qsort may swap equal clocks");
+#endif
+#endif
 }
 #endif
